@@ -641,6 +641,41 @@ impl ZooVal for Strings {
     }
 }
 
+/// A value that ENDS in one long string (sizes cross the 4 KiB / 64 KiB thresholds a size-dependent read path
+/// would use); nothing follows the string, so a short read of it is not caught by a later field.
+#[derive(Savefile, Debug, PartialEq, Clone)]
+pub struct Text {
+    pub id: u32,
+    pub tags: Vec<u8>,
+    pub body: String,
+}
+impl ZooVal for Text {
+    fn gen(rng: &mut Rng, sc: u8, hint: usize) -> Self {
+        let n = match sc {
+            0 => 0,
+            1 => 1,
+            2 => len_for(rng, 2, 0),
+            3 => *rng.pick(&[4095usize, 4096, 4097, 5000, 8191, 8192, 8193, 12000, 65535, 65536, 65537, 70000]),
+            _ => hint.max(1),
+        };
+        let mut body = String::with_capacity(n);
+        let mut x = rng.next_u64();
+        for _ in 0..n {
+            x = x.wrapping_mul(6364136223846793005).wrapping_add(1442695040888963407);
+            body.push((b'a' + ((x >> 33) % 26) as u8) as char);
+        }
+        let k = len_for(rng, sc.min(2), 0);
+        Text { id: rng.next_u64() as u32, tags: rng.bytes(k), body }
+    }
+    fn walk(&self, w: &mut Walker) {
+        w.prim(4);
+        w.collection("Vec<u8>", self.tags.len(), 1);
+        if w.collection("String", self.body.len(), 1) {
+            w.elements_touched += self.body.len() as u64;
+        }
+    }
+}
+
 // ---------------------------------------------------------------------------------------------
 // Containers and the object-safe subject interface
 // ---------------------------------------------------------------------------------------------
@@ -833,6 +868,7 @@ pub fn subjects() -> Vec<&'static dyn Subject> {
         subj!(Smalls, "Smalls"),
         subj!(BigBlob, "BigBlob"),
         subj!(Strings, "Strings"),
+        subj!(Text, "Text"),
     ]
 }
 pub fn subject(name: &str) -> &'static dyn Subject {
